@@ -86,6 +86,8 @@ impl<T> Drop for Object<T> {
                 }
                 let _ = pool.available.fetch_add(1, Ordering::Relaxed);
                 pool.semaphore.add_permits(1);
+                #[cfg(feature = "verif_hooks")]
+                crate::verif::point("um.drop.before_clean_up");
                 pool.clean_up();
             }
         }
@@ -193,6 +195,8 @@ impl<T> Pool<T> {
             TryAcquireError::NoPermits => PoolError::Timeout,
             TryAcquireError::Closed => PoolError::Closed,
         })?;
+        #[cfg(feature = "verif_hooks")]
+        crate::verif::point("um.get.after_permit");
         let obj = {
             let mut queue = inner.queue.lock().unwrap();
             queue.pop().unwrap()
@@ -232,6 +236,8 @@ impl<T> Pool<T> {
                 .map_err(|_| PoolError::Closed),
             (Some(_), None) => Err(PoolError::NoRuntimeSpecified),
         }?;
+        #[cfg(feature = "verif_hooks")]
+        crate::verif::point("um.get.after_permit");
         let obj = {
             let mut queue = inner.queue.lock().unwrap();
             queue.pop().unwrap()
@@ -291,6 +297,8 @@ impl<T> Pool<T> {
     /// `max_size`. In the methods `add` and `try_add` this is ensured by using
     /// the `size_semaphore`.
     fn _add(&self, object: T) {
+        #[cfg(feature = "verif_hooks")]
+        crate::verif::point("um.add.after_permit");
         let _ = self.inner.size.fetch_add(1, Ordering::Relaxed);
         {
             let mut queue = self.inner.queue.lock().unwrap();
@@ -322,13 +330,33 @@ impl<T> Pool<T> {
     /// [`PoolError::Closed`] immediately.
     pub fn close(&self) {
         self.inner.semaphore.close();
+        #[cfg(feature = "verif_hooks")]
+        crate::verif::point("um.close.between_closes");
         self.inner.size_semaphore.close();
+        #[cfg(feature = "verif_hooks")]
+        crate::verif::point("um.close.before_clear");
         self.inner.clear();
     }
 
     /// Indicates whether this [`Pool`] has been closed.
     pub fn is_closed(&self) -> bool {
         self.inner.is_closed()
+    }
+
+    /// Read-only snapshot for the verification harness.
+    #[cfg(feature = "verif_hooks")]
+    #[must_use]
+    pub fn verif_snapshot(&self) -> crate::verif::UnmanagedSnapshot {
+        let queue = self.inner.queue.lock().unwrap();
+        crate::verif::UnmanagedSnapshot {
+            permits: self.inner.semaphore.available_permits(),
+            size_permits: self.inner.size_semaphore.available_permits(),
+            closed: self.inner.is_closed(),
+            size: self.inner.size.load(Ordering::Relaxed),
+            available: self.inner.available.load(Ordering::Relaxed),
+            queue_len: queue.len(),
+            max_size: self.inner.config.max_size,
+        }
     }
 
     /// Retrieves [`Status`] of this [`Pool`].
